@@ -21,6 +21,8 @@ HEX_UNIVERSES = {
     "HXXL": ["", "11" * 129 + "12", "11" * 129 + "13", "21" * 130],
     # a key that is a proper prefix of two longer keys (branch with a value above two children)
     "HP3": ["01", "0123", "0145"],
+    # three keys with the same tail under three branch slots (with one long value: a hashed leaf referenced three times)
+    "H3S": ["1001", "2001", "3001", "40"],
     "HW4": ["", "00", "70", "f0"],
     "H4b": ["12", "1234", "1235", "1245"],
     "HL": [
